@@ -5,3 +5,49 @@ From CiwV Require Import Sx Acc.C04.
 Theorem C04_sound : forall tr recs fins st, C04.acc tr recs fins = Accept st -> C04.P_C04 tr recs fins.
 Proof. exact C04.C04_sound. Qed.
 Print Assumptions C04_sound.
+
+(* ---- T2: the engine model (coq/Engine, tied to /repo by the stepwise correspondence check K2) keeps server exclusivity ---- *)
+From Coq Require Import ZArith List.
+From CiwV Require Import Prelude.
+From CiwV.Engine Require Import State Engine Codec.
+From CiwV.Inv Require Import Frame Conserve Servers.
+Open Scope Z_scope.
+
+(* one executed event, for every configuration, every state satisfying the invariant and every oracle of draws *)
+Theorem event_step_srv : forall cf s s', Servers.SrvInv cf s -> Engine.event_step cf s = Ok (tt, s') -> Servers.SrvInv cf s'.
+Proof. exact Servers.event_step_srv. Qed.
+Print Assumptions event_step_srv.
+
+(* any number of events, in the words of the property: at a node with c servers there are c servers with distinct ids, a server
+   is busy exactly when it holds a customer, that customer is at the node and records exactly this server and conversely, no two
+   customers share a server and no server has two customers, at most c customers hold a server and at most c servers are busy *)
+Theorem engine_servers : forall cf ds s s', Servers.SrvInv cf s -> Codec.run_many cf s ds = Ok s' ->
+  forall k nd nc c, nth_error (nodes s') k = Some nd -> nth_error (cf_nodes cf) k = Some nc -> nc_c nc = Some c ->
+    zlen (n_servers nd) = c /\ NoDup (map sv_id (n_servers nd)) /\
+    (forall sv, In sv (n_servers nd) -> (sv_busy sv = true <-> sv_cust sv <> None)) /\
+    (forall sv i, In sv (n_servers nd) -> sv_cust sv = Some i ->
+       In i (Engine.all_individuals nd) /\ exists x, Engine.find_ind i (inds s') = Some x /\ i_server x = Some (sv_id sv)) /\
+    (forall i x sid, In i (Engine.all_individuals nd) -> Engine.find_ind i (inds s') = Some x -> i_server x = Some sid ->
+       exists sv, In sv (n_servers nd) /\ sv_id sv = sid /\ sv_cust sv = Some i) /\
+    (forall i1 i2 sid, In i1 (Engine.all_individuals nd) -> In i2 (Engine.all_individuals nd) ->
+       Servers.isv (inds s') i1 = Some sid -> Servers.isv (inds s') i2 = Some sid -> i1 = i2) /\
+    (forall sv1 sv2 i, In sv1 (n_servers nd) -> In sv2 (n_servers nd) -> sv_cust sv1 = Some i -> sv_cust sv2 = Some i -> sv1 = sv2) /\
+    zlen (filter (Servers.holds_server (inds s')) (Engine.all_individuals nd)) <= c /\ zlen (filter sv_busy (n_servers nd)) <= c.
+Proof. exact Servers.engine_servers. Qed.
+Print Assumptions engine_servers.
+
+(* the clause in time: a busy server keeps its customer (blocked or not) until a service record of that customer at that node is
+   written, i.e. until the customer is released from the node *)
+Theorem server_stays : forall cf s s', Servers.SrvInv cf s -> Engine.event_step cf s = Ok (tt, s') ->
+  forall k nd nc c sv i, nth_error (nodes s) k = Some nd -> nth_error (cf_nodes cf) k = Some nc -> nc_c nc = Some c ->
+    In sv (n_servers nd) -> sv_cust sv = Some i ->
+    (exists nd' sv', nth_error (nodes s') k = Some nd' /\ In i (Engine.all_individuals nd') /\
+                     In sv' (n_servers nd') /\ sv_id sv' = sv_id sv /\ sv_cust sv' = Some i /\ sv_busy sv' = true) \/
+    Servers.left_node s' k i.
+Proof. exact Servers.server_stays. Qed.
+Print Assumptions server_stays.
+
+(* the executable test used by the correspondence check on the real engine's snapshots is sound for the invariant *)
+Theorem srv_b_sound : forall cf s, Servers.srv_b cf s = true -> Servers.SrvInv cf s.
+Proof. exact Servers.srv_b_sound. Qed.
+Print Assumptions srv_b_sound.
